@@ -320,7 +320,7 @@ class World:
                         "cmp": r.choice(["zstd", "zstd1", "gzip", "none"]),
                         "basin": r.choice(["none", "none", "none", "internal", "file", "mapped"])}
             return {"k": "layout", "dseed": r.randrange(1 << 30), "n": r.choice([3, 4, 6, 9, 14, 23, 40]),
-                    "ver": r.randrange(len(VERSIONS)),
+                    "ver": r.choice(list(range(len(VERSIONS))) + [4, 4, 4]),   # (4: the version whose 'volume' depends on a marker log)
                     "basin": r.choice(["none", "none", "none", "internal", "file", "mapped", "multi", "multi_file"]),
                     "special": r.choice(["none"] * 10 + ["empty_feature", "empty_events", "empty_events_basin"])}
         if self.t.get("tdms") is not None and not self.tdms_done and r.random() < 0.35:
@@ -559,9 +559,12 @@ class World:
             if nlogs:
                 lg = h.create_group("logs")
                 names = pr.sample(["log0", "log1", "wörk-lög", "M1_para.ini", "dclab_issue_141", "dclab-compress"], nlogs)
+                if rules.get("volume_unless_log") and "volume" in scal and "dclab_issue_141" not in names and pr.random() < 0.6:
+                    # the marker whose existence keeps 'volume' valid (often an empty log: only the name counts)
+                    names.append("dclab_issue_141")
                 for ln in names:
                     vlen = pr.random() < 0.5
-                    if pr.random() < 0.15:
+                    if pr.random() < (0.5 if ln == "dclab_issue_141" else 0.15):
                         lines = []
                         ctx.probe("log_empty")
                     else:
